@@ -18,6 +18,16 @@ from ..provider.location import FieldLoc, TypeHintLoc
 from .provider_template import ConverterProvider
 
 
+class _NameRepr:
+    __slots__ = ("_name", )
+
+    def __init__(self, name: str):
+        self._name = name
+
+    def __repr__(self):
+        return self._name
+
+
 class BuiltinConverterProvider(ConverterProvider):
     def __init__(self, *, name_sanitizer: NameSanitizer = BuiltinNameSanitizer()):
         self._name_sanitizer = name_sanitizer
@@ -52,10 +62,12 @@ class BuiltinConverterProvider(ConverterProvider):
             ),
             lambda x: "Cannot create top-level coercer",
         )
-        closure_name = self._get_closure_name(request)
+        function_name = self._get_closure_name(request)
+        closure_name = self._name_sanitizer.sanitize(function_name) or "converter"
         dumper_code, dumper_namespace = self._produce_code(
             signature=request.signature,
             closure_name=closure_name,
+            function_name=function_name,
             stub_function=request.stub_function,
             coercer=coercer,
         )
@@ -84,6 +96,7 @@ class BuiltinConverterProvider(ConverterProvider):
         signature: Signature,
         stub_function: Optional[Callable],
         closure_name: str,
+        function_name: str,
         coercer: Coercer,
     ) -> tuple[str, Mapping[str, object]]:
         builder = CodeBuilder()
@@ -93,8 +106,15 @@ class BuiltinConverterProvider(ConverterProvider):
         namespace.add_outer_constant("_update_wrapper", update_wrapper)
         coercer_var = self._register_mangled(namespace, "coercer", coercer)
 
+        no_types_parameters = []
+        for param in signature.parameters.values():
+            if param.default is not Parameter.empty:
+                # a default is passed via namespace, its repr must not become a part of the source code
+                default_var = self._register_mangled(namespace, f"default_{param.name}", param.default)
+                param = param.replace(default=_NameRepr(default_var))  # noqa: PLW2901
+            no_types_parameters.append(param.replace(annotation=Signature.empty))
         no_types_signature = signature.replace(
-            parameters=[param.replace(annotation=Signature.empty) for param in signature.parameters.values()],
+            parameters=no_types_parameters,
             return_annotation=Signature.empty,
         )
         parameters = tuple(signature.parameters.values())
@@ -108,7 +128,7 @@ class BuiltinConverterProvider(ConverterProvider):
         if stub_function is not None:
             builder += f"_update_wrapper({closure_name}, _stub_function)"
         builder += f"{closure_name}.__signature__ = _closure_signature"
-        builder += f"{closure_name}.__name__ = {closure_name!r}"
+        builder += f"{closure_name}.__name__ = {function_name!r}"
         return builder.string(), namespace.all_constants
 
     def _get_ctx_passing(self, ctx_parameters: Sequence[Parameter]) -> str:
